@@ -73,7 +73,10 @@ func (e *Engine) ensureInit(pkg *ssa.Package) {
 	saveEpoch, saveRoot, saveInit := e.epoch, e.inRoot, e.inInitOf
 	e.epoch, e.inRoot, e.inInitOf = 0, true, pkg
 	t0 := time.Now()
-	e.runNested(initFn, nil)
+	if _, ok := e.runNested(initFn, nil); !ok {
+		// a partially initialised package silently changes semantics: report it
+		e.res.Unsupported["package initialisation incomplete: "+pkg.Pkg.Path()]++
+	}
 	if e.cfg.Verbose > 2 {
 		fmt.Fprintf(os.Stderr, "init %s: %v\n", pkg.Pkg.Path(), time.Since(t0))
 	}
